@@ -294,17 +294,49 @@ Record walk_post (k : N) (ms : list pmap) (T : list N) (out : list entry) : Prop
            exists i m', j = (k + N.of_nat i)%N /\ nth_error ms i = Some m' /\ is_key m' c = true;
   wp_untagged : forall c, In (c, None) out -> ~ key_any ms c;
   wp_nodup : NoDup (map fst (filter tagged out));
+  wp_nodup_all : NoDup (map fst out);
   wp_order : forall l1 c j l2, out = l1 ++ (c, Some j) :: l2 ->
              forall i m', j = (k + N.of_nat i)%N -> nth_error ms i = Some m' ->
              forall p, edge m' c p -> In p (map fst l2) /\ ~ In p (map fst l1);
 }.
 
+Lemma unique_from_In seen l x : In x (unique_from seen l) <-> (In x l /\ ~ In x seen).
+Proof.
+  revert seen. induction l as [|a l IH]; intros seen; cbn.
+  - tauto.
+  - destruct (memN a seen) eqn:E.
+    + apply memN_In in E. rewrite IH. split.
+      * intros [H1 H2]. auto.
+      * intros [[<-|H1] H2]; [contradiction|auto].
+    + apply memN_false in E. cbn. rewrite IH. cbn. split.
+      * intros [<-|[H1 H2]]; [auto|]. split; [auto|]. intros H. apply H2. now right.
+      * intros [[<-|H1] H2]; [now left|].
+        destruct (N.eq_dec a x) as [->|Hne]; [now left|]. right. split; [assumption|].
+        intros [H|H]; [congruence|contradiction].
+Qed.
+
+Lemma unique_from_NoDup seen l : NoDup (unique_from seen l).
+Proof.
+  revert seen. induction l as [|a l IH]; intros seen; cbn; [constructor|].
+  destruct (memN a seen); [apply IH|]. constructor; [|apply IH].
+  rewrite unique_from_In. intros [_ H]. apply H. now left.
+Qed.
+
+Lemma unique_In l x : In x (unique l) <-> In x l.
+Proof. unfold unique. rewrite unique_from_In. cbn. tauto. Qed.
+
+Lemma unique_NoDup l : NoDup (unique l).
+Proof. apply unique_from_NoDup. Qed.
+
 Lemma flush_In c tag T : In (c, tag) (flush T) <-> tag = None /\ In c T.
 Proof.
   unfold flush. rewrite in_map_iff. split.
-  - intros (x & E & Hx). inversion E; subst. auto.
-  - intros [-> H]. exists c. auto.
+  - intros (x & E & Hx). inversion E; subst. rewrite unique_In in Hx. auto.
+  - intros [-> H]. exists c. split; [reflexivity|]. now rewrite unique_In.
 Qed.
+
+Lemma flush_fst T : map fst (flush T) = unique T.
+Proof. unfold flush. rewrite map_map. cbn. apply map_id. Qed.
 
 Lemma walk_spec ms : forall k T out,
   WF ms -> walk k (map Some ms) T = (out, Done) -> walk_post k ms T out.
@@ -314,12 +346,13 @@ Proof.
     constructor.
     + intros c tag Hc. apply flush_In in Hc. exists c. split; [tauto|apply greach_refl].
     + intros x (t & Ht & Hr). inversion Hr; subst.
-      * unfold flush. rewrite map_map. cbn. now rewrite map_id.
+      * rewrite flush_fst. now rewrite unique_In.
       * destruct H as (m & [] & _).
     + intros c j Hc. apply flush_In in Hc. destruct Hc; discriminate.
     + intros c _ (m & [] & _).
     + assert (filter tagged (flush T) = []) as ->; [|constructor].
-      unfold flush. induction T; cbn; auto.
+      unfold flush. induction (unique T); cbn; auto.
+    + rewrite flush_fst. apply unique_NoDup.
     + intros l1 c j l2 E. exfalso.
       assert (In (c, Some j) (flush T)) as Hin by (rewrite E; apply in_or_app; right; now left).
       apply flush_In in Hin. destruct Hin; discriminate.
@@ -331,6 +364,7 @@ Proof.
       - intros c j [].
       - intros c [].
       - constructor.
+      - constructor.
       - intros l1 c j l2 E. destruct l1; discriminate. }
     set (T := t0 :: T0) in *.
     cbn [map] in H. rewrite walk_cons in H by discriminate.
@@ -339,7 +373,7 @@ Proof.
     inversion H; subst out st; clear H.
     pose proof (visit_op_spec m T em T' Ev) as [Vnd Vem Vord Vrest].
     assert (W' := W). destruct W' as (W1 & W2 & Wr).
-    specialize (IH (k + 1)%N T' out' Wr Ew). destruct IH as [Isnd Icmp Itag Iunt Ind Iord].
+    specialize (IH (k + 1)%N T' out' Wr Ew). destruct IH as [Isnd Icmp Itag Iunt Ind Inda Iord].
     assert (HT' : forall x, greach_from rest T' x -> greach_from (m :: rest) T x /\ is_key m x = false).
     { intros x (t' & Ht' & Hr). apply Vrest in Ht'. destruct Ht' as [Hk' (t & Ht & Htt')].
       split.
@@ -380,6 +414,14 @@ Proof.
         apply filter_In in Hc. destruct Hc as [Hc _]. cbn in Hx.
         apply Vem in Hx. rewrite (Hout'_nonkey c tag Hc) in Hx. destruct Hx; discriminate. }
       clear - Vnd Ind Hdisj. induction Vnd as [|a em Ha Hem IHem]; cbn; [assumption|].
+      constructor.
+      * rewrite in_app_iff. intros [H|H]; [contradiction|]. apply (Hdisj a); [now left|assumption].
+      * apply IHem. intros x Hx. apply Hdisj. now right.
+    + rewrite map_app, tagged_with_fst.
+      assert (Hdisj : forall x, In x em -> ~ In x (map fst out')).
+      { intros x Hx Hx'. apply in_map_iff in Hx'. destruct Hx' as ([c tag] & <- & Hc). cbn in Hx.
+        apply Vem in Hx. rewrite (Hout'_nonkey c tag Hc) in Hx. destruct Hx; discriminate. }
+      clear - Vnd Inda Hdisj. induction Vnd as [|a em Ha Hem IHem]; cbn; [assumption|].
       constructor.
       * rewrite in_app_iff. intros [H|H]; [contradiction|]. apply (Hdisj a); [now left|assumption].
       * apply IHem. intros x Hx. apply Hdisj. now right.
@@ -576,7 +618,7 @@ Qed.
 Lemma walk_out_ok ms T out :
   WF ms -> walk 0 (map Some ms) T = (out, Done) -> Out_ok ms T out.
 Proof.
-  intros W H. destruct (walk_spec ms 0 T out W H) as [Hsnd Hcmp Htag Hunt Hnd Hord].
+  intros W H. destruct (walk_spec ms 0 T out W H) as [Hsnd Hcmp Htag Hunt Hnd Hnda Hord].
   split; [assumption|]. split.
   - intros s Hs. apply Hcmp. exists s. split; [assumption|apply greach_refl].
   - intros l1 c tag l2 E. destruct tag as [j|]; cbn.
@@ -590,7 +632,7 @@ Qed.
 Lemma walk_closed_all_tagged ms T out :
   WF ms -> Closed ms T -> walk 0 (map Some ms) T = (out, Done) -> forallb tagged out = true.
 Proof.
-  intros W C H. destruct (walk_spec ms 0 T out W H) as [Hsnd Hcmp Htag Hunt Hnd Hord].
+  intros W C H. destruct (walk_spec ms 0 T out W H) as [Hsnd Hcmp Htag Hunt Hnd Hnda Hord].
   apply forallb_forall. intros [c [j|]] Hin; [reflexivity|]. exfalso.
   apply (Hunt c Hin). apply C. eapply Hsnd; eauto.
 Qed.
